@@ -333,6 +333,41 @@ def run_inputs(ctx, inputs):
             run_e2e(ctx, [h])
 
 
+def run_app_rotation(ctx):
+    """"followed by the cookie supplied by the caller" through WebSocketApp: the application rotates `app.cookie` whenever a
+    connection has come up (on_open / on_reconnect); the request of EVERY connection of a reconnecting run carries the cookie
+    the caller had when that connection was made.  Real runs under the virtual-time scheduler, oracle only."""
+    import appcheck
+    import re
+    from props import c15
+    scs = []
+    for seq in (("Ee", "Ee"), ("Er", "R", "Ee"), ("Ee", "J", "Ee", "Ee"), ("Ee", "Ee", "Ee")):
+        for rc in (1024, 3072):
+            for ssl_ in (False, True):
+                sc = c15.scenario(seq, rc, "close", ssl=ssl_)
+                sc.update(cookie_rotate=True, kind="app-cookie-rotation", tag="-".join(seq) + "|cookie-rotation")
+                scs.append(sc)
+    for sc, r in zip(scs, appcheck.run_real_many(scs)):
+        reqs = r.get("requests") or []
+        got = []
+        for idx, req in reqs:
+            m = re.search(r"(?im)^cookie:[ \t]*(.*?)\r?$", req)
+            got.append(m.group(1) if m else None)
+        # request k of the run: k-th dial that got as far as sending a request (refused dials send none); the cookie rotates
+        # after every ESTABLISHED connection's opening callback
+        want, rot = [], 0
+        for d in sc["runs"][0]:
+            if d[0] == "R":
+                continue
+            want.append(f"session=s{rot}")
+            if d[0] == "E":
+                rot += 1
+        ctx.case(key=("app-cookie", sc["tag"], sc["ssl"], sc["rc"]), nontrivial=True, cls="app:cookie-rotation:" + str(len(got)))
+        if got != want:
+            ctx.violate("caller-cookie-appended", "stale-caller-cookie-on-a-later-connection-of-the-run", sc,
+                        f"Cookie headers {want}", f"{got}; trace …{r['trace'][-200:]}", size=len(sc["runs"][0]) + 1)
+
+
 def run(ctx):
     ctx.assumptions = [
         "C20: http.cookies.SimpleCookie's parser is not modelled: responses are rendered canonically (`n=v; Domain=d` per cookie) and parsed by the real code; the model starts from the parsed object",
@@ -342,11 +377,12 @@ def run(ctx):
     ctx.rule = ("histories of responses (cookie sets over names {a,a1,b} x values {1,2}; domains x.co, X.CO, .x.co, sub.x.co, "
                 "y.co, none, plus '', '..x.co', 'co' singly): all of length <= 1, a sample of length 2 (all in thorough), random "
                 "length 3 (4) x targets {x.co, X.co, sub.x.co, badx.co, co, y.co}; unit on SimpleCookieJar and end-to-end Cookie "
-                "headers of real handshakes with the process-wide jar (non-trivial = some stored cookie covers the target)")
+                "headers of real handshakes with the process-wide jar; WebSocketApp reconnecting runs with the caller's cookie rotated after every connection (non-trivial = some stored cookie covers the target)")
     run_inputs(ctx, corpus_inputs())
     run_unit(ctx)
     run_merge(ctx)
     run_e2e(ctx)
+    run_app_rotation(ctx)
 
 
 def search(ctx):
